@@ -48,6 +48,9 @@ def generate(rng, tier, n):
             st2["shared_uses"] = st.get("shared_uses", 0)
         else:
             t2, tags, st2 = t, [], st
+        if not tags and rng.random() < 0.08:
+            t2 = _huge_weights(rng, t2)
+            tags = ["huge_weights"]
         viol = contract.violations(t2)
         cases.append(build(cid, t2, st2, tags, viol))
         cid += 1
@@ -56,6 +59,20 @@ def generate(rng, tier, n):
 
 def _t(x):
     return {"t": f2b(x)}
+
+
+def _huge_weights(rng, t):
+    """scale the weights of every unshared chance node so that their sum leaves the binary64 range (D14)"""
+    if "t" in t:
+        return t
+    if "o" in t:
+        outs = [[w, _huge_weights(rng, c)] for w, c in t["o"]]
+        if t.get("c") is None and len(outs) >= 2:
+            top = max(b2f(w) for w, _ in outs)
+            k = rng.choice([1.2e308, 1.7e308, 9e307]) / top
+            outs = [[f2b(b2f(w) * k), c] for w, c in outs]
+        return {"c": t.get("c"), "o": outs}
+    return {"p": t["p"], "i": t["i"], "a": [[a, _huge_weights(rng, c)] for a, c in t["a"]]}
 
 
 def corpus():
@@ -67,8 +84,11 @@ def corpus():
     two = {"p": 1, "i": 5, "a": [[1, _t(0.0)], [2, _t(1.0)]]}
     d4a = {"c": None, "o": [[f2b(1.0), one], [f2b(1.0), two]]}
     d4b = {"c": None, "o": [[f2b(1.0), two], [f2b(1.0), one]]}
+    # D14: finite positive weights whose sum overflows binary64 (accepted; must be solvable)
+    big = {"c": None, "o": [[f2b(1e308), {"p": 1, "i": 1, "a": [[1, _t(1.0)], [2, _t(0.0)]]}],
+                            [f2b(1e308), {"p": 2, "i": 2, "a": [[1, _t(1.0)], [2, _t(-1.0)]]}]]}
     for k, t in enumerate([d3, d4a, d4b, _t(float("nan")), _t(float("inf")),
-                           {"c": None, "o": [[f2b(1.0), _t(1.0)], [f2b(1.0), _t(float("-inf"))]]}]):
+                           {"c": None, "o": [[f2b(1.0), _t(1.0)], [f2b(1.0), _t(float("-inf"))]]}, big]):
         out.append(build(1000000 + k, t, tree_stats(t), ["corpus"], contract.violations(t)))
     return out
 
